@@ -10,7 +10,7 @@ ID = "C14"
 LEVEL = "model_checking"
 BATCH = 1
 RULE = ("exhaustive grids: joint degree distributions with support = every non-empty subset of size <= 3 of "
-        "{0,1,2}^t (t=1,2), {0,1}^3 and {0,1}^4 minus 0, 3 weight patterns, every list of topology names from a "
+        "{0,1,2}^t (t=1,2), {0,1}^3 and {0,1}^4 minus 0, 3 weight patterns plus patterns with one key of relative weight 2^-34, every list of topology names from a "
         "catalogue of 5 naming schemes; every identity (forward excess formula, inversion, row sums, network "
         "histogram, mean) is evaluated from its definition; network-derived matrices over every clean network of "
         "the C13 box; non-trivial = distribution with >= 2 keys / network with >= 2 motifs")
@@ -75,7 +75,13 @@ def instances(tier, seed):
 
 
 def weight_patterns(k):
-    return sorted({(1,) * k, tuple([2, 1, 3, 1][:k]), tuple([1, 3, 2, 2][:k])})
+    pats = {(1,) * k, tuple([2, 1, 3, 1][:k]), tuple([1, 3, 2, 2][:k])}
+    if 2 <= k <= 3:
+        # one joint degree is rare (relative weight 2^-34 ~ 6e-11), each position in turn: the laws have no lower
+        # bound on a topology's mean degree or on the mass of the joint degree that is positive in every topology
+        for j in range(k):
+            pats.add(tuple(1 if i == j else 2 ** 34 + i for i in range(k)))
+    return sorted(pats)
 
 
 def close(a, b):
@@ -297,7 +303,7 @@ def run_instance(inst, tier):
                     return res
         if not res.samples:
             t, keys = inst["items"][-1]
-            res.samples.append({"joint_degree_support": [list(k) for k in keys], "weight_patterns": "3",
+            res.samples.append({"joint_degree_support": [list(k) for k in keys], "weight_patterns": "3 + one-rare-key patterns (relative weight 2^-34) for supports of 2-3 keys",
                                 "naming_schemes": [s[:t] for s in NAME_SCHEMES]})
     else:
         for pl in inst["placements"]:
